@@ -4,7 +4,6 @@ use crate::math::{Isometry, Point, Real, Vector};
 use crate::query::details::ShapeCastOptions;
 use crate::query::{self, Ray, ShapeCastHit, ShapeCastStatus};
 use crate::shape::Ball;
-use num::Zero;
 
 /// Time Of Impact of two balls under translational movement.
 #[inline]
@@ -28,22 +27,13 @@ pub fn cast_shapes_ball_ball(
         }
 
         let dpt = ray.point_at(time_of_impact) - center;
-        let normal1;
-        let normal2;
-        let witness1;
-        let witness2;
-
-        if radius.is_zero() {
-            normal1 = Vector::x_axis();
-            normal2 = pos12.inverse_transform_unit_vector(&(-Vector::x_axis()));
-            witness1 = Point::origin();
-            witness2 = Point::origin();
-        } else {
-            normal1 = Unit::new_unchecked(dpt / radius);
-            normal2 = pos12.inverse_transform_unit_vector(&(-normal1));
-            witness1 = Point::from(*normal1 * b1.radius);
-            witness2 = Point::from(*normal2 * b2.radius);
-        }
+        // NOTE: `dpt` has length `radius` only if the balls actually touch at `time_of_impact`.
+        //       If they start closer than that, it is shorter, so it must be normalized (not
+        //       divided by `radius`) to get a unit normal.
+        let normal1 = Unit::try_new(dpt, crate::math::DEFAULT_EPSILON).unwrap_or(Vector::x_axis());
+        let normal2 = pos12.inverse_transform_unit_vector(&(-normal1));
+        let witness1 = Point::from(*normal1 * b1.radius);
+        let witness2 = Point::from(*normal2 * b2.radius);
 
         if !options.stop_at_penetration && time_of_impact < 1.0e-5 && normal1.dot(vel12) >= 0.0 {
             return None;
